@@ -37,16 +37,12 @@ SINGLES = [
     (3, 10.5, 'x'),        # key 3: new, larger than every initial key
     (1, 20.5, 'y'),        # key 1: present in the 1- and 2-row tables, different payload
     (2, 20.5, 'y'),        # identical to an initial row of the 2-row table
-    (1, 10.5, 'x'),        # identical to the other initial row
-    (2, 10.5, 'x'),
-    (3, 20.5, 'y'),
 ]
 BATCHES = [
     [(3, 10.5, 'y'), (2, 10.5, 'x')],        # distinct keys, descending
-    [(3, 10.5, 'x'), (3, 20.5, 'y')],        # same a-key twice, different payload
+    [(3, 10.5, 'x'), (3, 20.5, 'y')],        # same a-key twice, different payload (key 3 present after a [3 ..] insert)
     [(2, 10.5, 'x'), (1, 20.5, 'y')],        # both initial keys re-inserted with new payloads, descending
-    [(1, 20.5, 'x'), (1, 10.5, 'x')],        # same a-key and same c-key twice; key 1 usually present
-    [(3, 20.5, 'x'), (3, 20.5, 'x')],        # the same row twice
+    [(3, 20.5, 'x'), (3, 20.5, 'x')],        # the same row twice (thorough only)
 ]
 INDEXES = [('a',), ('c',), ('a', 'c'), ('b',), ('a', 'b')]
 
@@ -57,9 +53,9 @@ REGISTER = 'q,"t",,t'
 
 def bounds(cfg):
     if cfg.quick:
-        return dict(depth=4, tables=[(1, 2), (2, 1), (3, 0), (3, 2)], singles=SINGLES[:3], batches=BATCHES[:3],
+        return dict(depth=4, tables=[(1, 2), (2, 1), (3, 0), (3, 2)], singles=SINGLES, batches=BATCHES[:3],
                     indexes=INDEXES[:3], sums=('a',))
-    return dict(depth=5, tables=[(n, r) for n in (1, 2, 3) for r in (0, 1, 2)], singles=SINGLES[:4],
+    return dict(depth=5, tables=[(1, 1), (1, 2), (2, 0), (2, 2), (3, 0), (3, 1), (3, 2)], singles=SINGLES,
                 batches=BATCHES, indexes=INDEXES, sums=('a', 'b'))
 
 
